@@ -1,5 +1,6 @@
 import MakoModel.Basic.Wire
 import MakoModel.Codegen.Attrs
+import MakoModel.Codegen.Deco
 /-!
 Driver handler of op `c05` (attribute parsing / signature re-emission model).
 
@@ -74,7 +75,30 @@ def encOS : Option Str → String
   | some s => encStr s
   | none => "none"
 
+def encArgs (a : Deco.Args) : String :=
+  " ".intercalate ([encL a.pos, toString a.kw.length] ++ a.kw.map fun p => encStr p.1 ++ " " ++ encStr p.2)
+
+/-- `deco <top|inl> <family> <context> <npos> <p>* <nkw> (<k> <v>)*` → `<ncalls> (<context> <npos> <p>* <nkw> (<k> <v>)*)*`:
+    with which arguments the render callable is entered -/
+def handleDeco : List String → Option String
+  | kind :: fam :: cid :: fs => do
+    let cid ← cid.toNat?
+    let (pos, fs) ← takeCounted decStr fs
+    let (kw, rest) ← match fs with
+      | n :: fs => do let n ← n.toNat?; takePairs decStr decStr n fs
+      | [] => none
+    if !rest.isEmpty then none else
+    let args : Deco.Args := ⟨pos, kw⟩
+    let d := Deco.wrapper (Deco.family fam)
+    let tr ← match kind with
+      | "top" => some (Deco.decorateToplevel d (fun c a => [(c, a)]) cid args)
+      | "inl" => some (Deco.decorateInline cid d (fun a => [(cid, a)]) args)
+      | _ => none
+    pure (" ".intercalate (toString tr.length :: tr.map fun t => toString t.1 ++ " " ++ encArgs t.2))
+  | _ => none
+
 def handle : Handler
+  | "deco" :: fs => handleDeco fs
   | ["attr", v] => do
     let v ← decStr v
     let r := match parseAttr v with
